@@ -264,6 +264,13 @@ func pokeWithCustomHooks(d date.Date) {
 	_ = u.UnmarshalText([]byte(text))
 	_ = json.Unmarshal([]byte(`{"d":"`+text+`"}`), &jholder{})
 	_ = u.Scan(text)
+	// second stage: a Formatter that fails (after writing something), used once, before the defaults come back
+	date.Formatter = func(buf []byte, d date.Date, f date.Format) ([]byte, error) {
+		return append(buf, "part"...), errors.New("formatter refused")
+	}
+	_ = d.String()
+	_ = fmt.Sprintf("%s %b", d, d)
+	_, _ = d.MarshalText()
 }
 
 func setLimit(n int) func() {
